@@ -1,0 +1,15 @@
+//go:build verif
+// +build verif
+
+package sarama
+
+// Verification hooks (build tag "verif" only). verifPoint is called at a few
+// linearization points; it does nothing unless a test installs verifHook. A hook may
+// block, which lets a test harness use the same points as scheduling gates.
+var verifHook func(point string, args ...interface{})
+
+func verifPoint(point string, args ...interface{}) {
+	if h := verifHook; h != nil {
+		h(point, args...)
+	}
+}
